@@ -5,11 +5,11 @@ from __future__ import annotations
 import ast
 from typing import Dict, List, Set
 
-from ..model import own_nodes, unparse
+from ..model import AnalysisError, own_nodes, unparse
 from ..pipeline import Pipeline
 from ..rows import package_stores
 from ..smitext import EXEMPT_CALLEES, TextFlow
-from ..util import assignments_to, calls, const_str
+from ..util import assignments_to, calls, const_str, enclosing_stmt
 from ..values import texts
 
 EXPLANATION = (
@@ -132,23 +132,61 @@ def rule_t2(ctx, pl: Pipeline, rule_id: str = "C02-T2") -> None:
         ctx.finding(rule_id, "preprocess.preprocess:edit-before-record", f.loc(), "the reaction column is edited by something other than atom-map removal before input_reaction is recorded")
 
 
+def _standardizer_family(ctx, f, pname: str):
+    """(function, local name) pairs that hold the list of standardiser callables: the parameter of ``f`` and every
+    parameter of a package function it is forwarded to."""
+    out, todo = [], [(f, pname)]
+    seen = set()
+    while todo:
+        g, nm = todo.pop()
+        if (g.qualname, nm) in seen:
+            continue
+        seen.add((g.qualname, nm))
+        out.append((g, nm))
+        for c in [x for x in own_nodes(g.node) if isinstance(x, ast.Call)]:
+            hits = [("pos", i) for i, a in enumerate(c.args) if isinstance(a, ast.Name) and a.id == nm] + [("kw", k.arg) for k in c.keywords if isinstance(k.value, ast.Name) and k.value.id == nm and k.arg]
+            if not hits:
+                continue
+            tgt = ctx.res.resolve_callee(c, g)
+            if not tgt or tgt[0] != "func" or tgt[1] not in ctx.prog.functions:
+                continue
+            h = ctx.prog.functions[tgt[1]]
+            params = list(h.params)
+            if h.cls is not None and not h.is_static and isinstance(c.func, ast.Attribute):
+                params = params[1:]
+            for kind, v in hits:
+                if kind == "pos" and v < len(params):
+                    todo.append((h, params[v]))
+                elif kind == "kw" and v in h.params:
+                    todo.append((h, v))
+    return out
+
+
 def rule_t3(ctx, tf: TextFlow) -> None:
     ctx.rule("C02-T3", "standardisers are applied to the merged fragment only", 1)
     f = ctx.prog.func("synrbl.SynMCSImputer.mcs_based_method.impute_reaction")
-    names = tf._names_cache.get(f.qualname, {})
+    std = [p for p in f.params if "standardizer" in p]
+    ctx.require(len(std) == 1, "impute_reaction no longer takes the list of smiles standardizers")
     n = 0
-    for loop in [x for x in own_nodes(f.node) if isinstance(x, ast.For) and isinstance(x.iter, ast.Name) and "standardizer" in x.iter.id and isinstance(x.target, ast.Name)]:
-        for c in [y for y in ast.walk(loop) if isinstance(y, ast.Call) and isinstance(y.func, ast.Name) and y.func.id == loop.target.id]:
-            n += 1
-            arg = c.args[0] if c.args else None
-            tainted = isinstance(arg, ast.Name) and "T" in names.get(arg.id, frozenset())
-            src_ok = False
-            if isinstance(arg, ast.Name):
-                srcs = [unparse(v) for _, v, _i in assignments_to(f, arg.id)]
-                src_ok = any(s.endswith(".smiles") for s in srcs)
-            ctx.instance("C02-T3", "standardizer(%s): argument carries input text: %s" % (unparse(arg) if arg is not None else "?", tainted), f.loc(c), ok=not tainted and src_ok)
-            if tainted or not src_ok:
-                ctx.finding("C02-T3", "mcs_based_method.impute_reaction:standardizer-scope", f.loc(c), "a SMILES standardiser is applied to text that carries the given molecules (or not to the merge result)")
+    for g, lname in _standardizer_family(ctx, f, std[0]):
+        names = tf._names_cache.get(g.qualname, {})
+        host = g is f
+        for loop in [x for x in own_nodes(g.node) if isinstance(x, (ast.For, ast.comprehension)) and isinstance(x.iter, ast.Name) and x.iter.id == lname and isinstance(x.target, ast.Name)]:
+            body = loop if isinstance(loop, ast.For) else getattr(loop, "_parent", loop)
+            for c in [y for y in ast.walk(body) if isinstance(y, ast.Call) and isinstance(y.func, ast.Name) and y.func.id == loop.target.id]:
+                n += 1
+                arg = c.args[0] if c.args else None
+                arg_names = [x.id for x in ast.walk(arg) if isinstance(x, ast.Name)] if arg is not None else []
+                tainted = any("T" in names.get(a, frozenset()) for a in arg_names)
+                src_ok = True
+                if host:
+                    src_ok = False
+                    if isinstance(arg, ast.Name):
+                        srcs = [unparse(v) for _, v, _i in assignments_to(g, arg.id)]
+                        src_ok = any(s.endswith(".smiles") for s in srcs)
+                ctx.instance("C02-T3", "%s: standardizer(%s): argument carries input text: %s" % (g.name, unparse(arg) if arg is not None else "?", tainted), g.loc(c), ok=not tainted and src_ok)
+                if tainted or not src_ok:
+                    ctx.finding("C02-T3", "mcs_based_method.%s:standardizer-scope" % g.name, g.loc(c), "a SMILES standardiser is applied to text that carries the given molecules (or not to the merge result)")
     ctx.require(n >= 1, "impute_reaction no longer applies the smiles_standardizer callables")
 
 
@@ -301,6 +339,96 @@ def rule_t8(ctx) -> None:
     ctx.require(n >= 2, "fewer than 2 CSV read sites found in SynCmd / batching (%d)" % n)
 
 
+def _slice_bounds(sl: ast.Slice, X: str):
+    """-> ('head'|'tail', normalised cut) for X[:b] / X[b:], else None"""
+    if sl.step is not None:
+        return None
+    def norm(b):
+        t = unparse(b).replace(" ", "")
+        pre = "len(%s)-" % X
+        if t.startswith(pre):
+            return "-" + t[len(pre):].strip("()")
+        return t
+    if sl.lower is None and sl.upper is not None:
+        return "head", norm(sl.upper)
+    if sl.upper is None and sl.lower is not None:
+        return "tail", norm(sl.lower)
+    return None
+
+
+def rule_t10(ctx, tf: TextFlow) -> None:
+    """A sub-range of the component list of a side (``parts[:k]``) written back to a text field leaves the components
+    outside the range behind.  It keeps the given molecules only when the complementary range is written with it and
+    the range that holds the given components (the head: imputers append) is handed through untouched."""
+    ctx.rule("C02-T10", "a range of a side's components is written back only together with its complement, the head range unmodified", 1)
+    reaching = set()
+    for s in tf.all_sinks():
+        reaching |= {l[2:] for l in s.labels if l.startswith("D:")}
+    by_func: Dict[str, List] = {}
+    for o in tf.all_ops():
+        if o.klass == "component-range":
+            by_func.setdefault(o.func.qualname, []).append(o)
+    n = 0
+    for q, ops in sorted(by_func.items()):
+        f = ctx.prog.functions[q]
+        short = q.split("synrbl.", 1)[-1]
+        if q not in reaching:
+            ctx.instance("C02-T10", "%s: component range(s) never reach a text field" % short, ops[0].where(), ok=True)
+            continue
+        n += 1
+        parts: Dict[Tuple[str, str], Dict[str, ast.AST]] = {}
+        odd = []
+        sink_values = [sk.value for sk in tf.all_sinks() if sk.func.qualname == q and isinstance(sk.value, ast.AST)]
+
+        def holder(e):
+            """-> (stored?, name that holds the range or None when the range itself is inside the stored value)"""
+            if any(x is e for v in sink_values for x in ast.walk(v)):
+                return True, None
+            st = enclosing_stmt(e)
+            if isinstance(st, ast.Assign) and len(st.targets) == 1 and isinstance(st.targets[0], ast.Name) and st.value is e:
+                nm = st.targets[0].id
+                group = {nm}
+                for _ in range(4):
+                    for a in own_nodes(f.node):
+                        if isinstance(a, ast.Assign) and isinstance(a.value, ast.Name) and a.value.id in group:
+                            group |= {t.id for t in a.targets if isinstance(t, ast.Name)}
+                return any(isinstance(x, ast.Name) and x.id in group for v in sink_values for x in ast.walk(v)), nm
+            return False, None
+
+        held = {}
+        for o in ops:
+            e = o.node
+            stored, nm = holder(e)
+            if not stored:
+                continue  # a range that is only looked at (compared, counted)
+            X = e.value.id if isinstance(e.value, ast.Name) else None
+            b = _slice_bounds(e.slice, X) if X else None
+            if b is None:
+                odd.append(o)
+                continue
+            parts.setdefault((X, b[1]), {})[b[0]] = e
+            held[id(e)] = nm
+        bad = None
+        for (X, cut), d in sorted(parts.items()):
+            if "head" in d and "tail" not in d:
+                bad = (d["head"], "the components after %s[:%s] are not written back with it" % (X, cut))
+            elif "tail" in d and "head" not in d:
+                bad = (d["tail"], "the components before %s[%s:] are not written back with it" % (X, cut))
+            else:
+                nm = held[id(d["head"])]
+                if nm is not None:
+                    defs = assignments_to(f, nm)
+                    edited = len(defs) != 1 or any(isinstance(c, ast.Call) and isinstance(c.func, ast.Attribute) and isinstance(c.func.value, ast.Name) and c.func.value.id == nm and c.func.attr in ("remove", "pop", "clear", "sort", "reverse", "insert") for c in own_nodes(f.node)) or any(isinstance(x, ast.Delete) and any(nm in unparse(t) for t in x.targets) for x in own_nodes(f.node))
+                    if edited:
+                        bad = (d["head"], "the head range %s (the given components) is edited before it is written back" % nm)
+        if odd and bad is None:
+            raise AnalysisError("%s: component range %s has a form the rule does not model" % (odd[0].where(), odd[0].detail))
+        ctx.instance("C02-T10", "%s: ranges %s" % (short, sorted("%s@%s" % k for k in parts)), ops[0].where(), ok=bad is None)
+        if bad is not None:
+            ctx.finding("C02-T10", "%s:component-range" % short.split(".", 1)[-1], f.loc(bad[0]), "a range of the components of a side is written to a text field and %s: a given molecule in that position disappears from the reaction" % bad[1])
+    ctx.require(n >= 1, "no function writes a range of a side's components back (the window mechanism of reduction_oxidation_rules_modify changed)")
+
+
 def check(ctx) -> None:
     pl = Pipeline(ctx)
     tf = TextFlow(ctx, ctx.pipeline_reachable())
@@ -308,6 +436,7 @@ def check(ctx) -> None:
     rule_t2(ctx, pl)
     rule_t3(ctx, tf)
     rule_t4(ctx)
+    rule_t10(ctx, tf)
     rule_t5(ctx, pl)
     # T7: a cached batch is served only for the identical rows and settings (shared with C12-K1): a key that
     # identifies reactions up to normalisation hands one input the molecules of another
